@@ -32,7 +32,11 @@ Pow2Sat(k) == IF k >= 30 THEN Cap ELSE IF k <= 0 THEN 1 ELSE 2 * Pow2Sat(k - 1)
 \* bits of numerator plus denominator of a constant
 ConstBits(v) == 12 * (Len(v.n.mag) + Len(v.d))
 \* an upper bound of |value| as an integer exponent: a constant c satisfies |c| < 2^(12 * limbs)
-ValueBound(e) == IF e.k = "const" THEN Pow2Sat(12 * Len(e.v.n.mag)) ELSE Cap
+\* (a literal below 2^24 is bounded by its own integer part + 1: `m^10` must not be classed like `m^4095`)
+ValueBound(e) == IF e.k # "const" THEN Cap
+                 ELSE IF Len(e.v.n.mag) <= 2 /\ Len(e.v.d) <= 2 /\ ~NIsZero(e.v.d)
+                      THEN Sat((NToInt(e.v.n.mag) \div NToInt(e.v.d)) + 1)
+                      ELSE Pow2Sat(12 * Len(e.v.n.mag))
 
 UnitBits == 600    \* database values: a few hundred bits
 
